@@ -107,6 +107,12 @@ func init() {
 					for n := 0; n <= w+e; n++ {
 						out = append(out, css("H_C05", s, cfg, 0, n))
 					}
+					if !s.heavy {
+						// one action per snapshot also when an indicator value is NaN / Inf (one zero denominator)
+						c := css("H_C05", s, cfg, 0, w+2)
+						c.ZeroDen = 1
+						out = append(out, c)
+					}
 				}
 				if s.noDflt && tier != "thorough" || s.heavy {
 					continue
@@ -184,6 +190,11 @@ func init() {
 						if s.heavy {
 							c.MaxWallS = 240
 						}
+						out = append(out, c)
+					}
+					if !s.heavy && ci == 0 {
+						c := css("H_C14", s, cfg, 2)
+						c.ZeroDen = 1
 						out = append(out, c)
 					}
 				}
@@ -292,6 +303,9 @@ func init() {
 				for ci, cfg := range s.cfgs {
 					if s.nonlin && ci > 0 && tier != "thorough" {
 						continue
+					}
+					if s.name == "Tsi" && tier != "thorough" {
+						continue // ratio of doubly smoothed sums: beyond the quick time-out
 					}
 					for which := 0; which <= 3; which++ {
 						if which >= 2 && !s.vol {
